@@ -140,17 +140,18 @@ func (dec *Decoder) applyInverseTransforms(pixels []uint32) []uint32 {
 		out = make([]uint32, numPix)
 	}
 
+	// Input and output must never alias: the colour-indexing inverse with pixel
+	// packing reads packed word x>>bits while writing word x, so running it in
+	// place overwrites packed words before they are read. Ping-pong between the
+	// pixel buffer and the transform buffer instead (both hold numPix words).
 	for n := dec.nextTransform - 1; n >= 0; n-- {
 		t := &dec.transforms[n]
 		inverseTransform(t, 0, t.YSize, rows, out)
-		rows = out
+		rows, out = out, rows
 	}
 
-	if dec.nextTransform == 0 {
-		// No transforms: output is the original pixels.
-		return pixels
-	}
-	return out[:numPix]
+	// rows is the buffer written last (pixels itself when there is no transform).
+	return rows[:numPix]
 }
 
 // inverseTransform applies a single inverse transform to the pixel data.
